@@ -1,6 +1,7 @@
 package core
 
 import (
+	"fmt"
 	"go/constant"
 	"go/token"
 	"go/types"
@@ -981,6 +982,88 @@ func sameOperand(x, y ssa.Value) bool {
 // substitution).
 var Assumed map[ssa.Value]bool
 
+// AssumedPaths: like Assumed, keyed by the access path of a boolean field load rooted at a
+// parameter ("p1.Acc.Login"): a request flag read twice is the same flag, provided the function
+// never stores to that field (the request message is not mutated concurrently: trusted).
+var AssumedPaths map[string]bool
+
+// AccessPath renders a load chain rooted at a parameter as "p<i>.F.G"; "" otherwise.
+func AccessPath(v ssa.Value) string {
+	var fields []string
+	for i := 0; i < 8 && v != nil; i++ {
+		switch x := v.(type) {
+		case *ssa.UnOp:
+			if x.Op != token.MUL {
+				return ""
+			}
+			v = x.X
+		case *ssa.FieldAddr:
+			f, base := FieldOfAddr(x)
+			if f == nil {
+				return ""
+			}
+			fields = append(fields, f.Name())
+			v = base
+		case *ssa.Field:
+			f, base := LoadedField(x)
+			if f == nil {
+				return ""
+			}
+			fields = append(fields, f.Name())
+			v = base
+		case *ssa.Parameter:
+			idx := -1
+			for j, p := range x.Parent().Params {
+				if p == x {
+					idx = j
+				}
+			}
+			if idx < 0 || len(fields) == 0 {
+				return ""
+			}
+			out := fmt.Sprintf("p%d", idx)
+			for j := len(fields) - 1; j >= 0; j-- {
+				out += "." + fields[j]
+			}
+			return out
+		default:
+			return ""
+		}
+	}
+	return ""
+}
+
+// storesToFieldNamed: fn contains a store to a field with this name (any base).
+func storesToFieldNamed(fn *ssa.Function, name string) bool {
+	found := false
+	AllInstrs(fn, func(in ssa.Instruction) {
+		if st, ok := in.(*ssa.Store); ok {
+			if f, _ := FieldOfAddr(st.Addr); f != nil && f.Name() == name {
+				found = true
+			}
+		}
+	})
+	return found
+}
+
+// DominatingPaths: access paths of boolean field loads whose outcome is fixed by the branches
+// dominating the sink (only fields the function never stores to).
+func DominatingPaths(fn *ssa.Function, sink ssa.Instruction) map[string]bool {
+	out := map[string]bool{}
+	for v, val := range DominatingConds(fn, sink) {
+		p := AccessPath(v)
+		if p == "" {
+			continue
+		}
+		last := p[strings.LastIndex(p, ".")+1:]
+		if storesToFieldNamed(fn, last) {
+			continue
+		}
+		out[p] = val
+	}
+	return out
+}
+
 // DominatingConds: the boolean SSA values (NOT stripped) whose outcome is fixed by the branches
 // dominating the sink.
 func DominatingConds(fn *ssa.Function, sink ssa.Instruction) map[ssa.Value]bool {
@@ -1046,6 +1129,35 @@ func assumedCuts(fn *ssa.Function) map[Edge]bool {
 			}
 		}
 	}
+	if len(AssumedPaths) > 0 {
+		for _, b := range fn.Blocks {
+			if len(b.Instrs) == 0 {
+				continue
+			}
+			ifi, ok := b.Instrs[len(b.Instrs)-1].(*ssa.If)
+			if !ok {
+				continue
+			}
+			v, neg := ifi.Cond, false
+			for {
+				if u, ok := v.(*ssa.UnOp); ok && u.Op == token.NOT {
+					v, neg = u.X, !neg
+					continue
+				}
+				break
+			}
+			// only in the function the paths were taken from (parameter indices are per function)
+			if p := AccessPath(v); p != "" && len(ParamSubst) == 0 {
+				if val, known := AssumedPaths[p]; known {
+					if val != neg {
+						out[Edge{b, 1}] = true
+					} else {
+						out[Edge{b, 0}] = true
+					}
+				}
+			}
+		}
+	}
 	if len(Assumed) == 0 {
 		return out
 	}
@@ -1093,10 +1205,14 @@ func assumedCuts(fn *ssa.Function) map[Edge]bool {
 // GuardedByCorr is GuardedBy that also prunes paths contradicting the boolean values implied by
 // the branches dominating the sink.
 func GuardedByCorr(fn *ssa.Function, sink ssa.Instruction, guards ...Guard) (bool, []int) {
-	saved := Assumed
+	saved, savedP := Assumed, AssumedPaths
 	Assumed = DominatingConds(fn, sink)
+	AssumedPaths = DominatingPaths(fn, sink)
 	cut, counts := PassEdges(fn, guards...)
-	Assumed = saved
+	for e := range assumedCuts(fn) {
+		cut[e] = true
+	}
+	Assumed, AssumedPaths = saved, savedP
 	for e := range CorrelatedCuts(fn, sink) {
 		cut[e] = true
 	}
@@ -1625,4 +1741,87 @@ func mayMatchInside(fn *ssa.Function, guards []Guard, depth int) bool {
 		}
 	})
 	return found
+}
+
+// PhiCutsFrom: starting from the given blocks and not traversing cut edges, a branch on a phi of
+// booleans all of whose *reachable* incoming values are the same constant has a known outcome; the
+// contradicting edges are returned (to a fixpoint).
+func PhiCutsFrom(fn *ssa.Function, starts []*ssa.BasicBlock, cut map[Edge]bool) map[Edge]bool {
+	out := map[Edge]bool{}
+	all := map[Edge]bool{}
+	for e := range cut {
+		all[e] = true
+	}
+	for changed := true; changed; {
+		changed = false
+		reach := ReachBlocks(fn, starts, all)
+		for b := range reach {
+			if len(b.Instrs) == 0 {
+				continue
+			}
+			ifi, ok := b.Instrs[len(b.Instrs)-1].(*ssa.If)
+			if !ok {
+				continue
+			}
+			v, neg := ifi.Cond, false
+			for {
+				if u, ok := v.(*ssa.UnOp); ok && u.Op == token.NOT {
+					v, neg = u.X, !neg
+					continue
+				}
+				break
+			}
+			phi, ok := v.(*ssa.Phi)
+			if !ok {
+				continue
+			}
+			known, val, any := true, false, false
+			for i, e := range phi.Edges {
+				pred := phi.Block().Preds[i]
+				edgeCut := false
+				for si, su := range pred.Succs {
+					if su == phi.Block() && all[Edge{pred, si}] {
+						edgeCut = true
+					}
+				}
+				if !reach[pred] || edgeCut {
+					continue
+				}
+				var bv bool
+				if k, isK := e.(*ssa.Const); isK && k.Value != nil && k.Value.Kind() == constant.Bool {
+					bv = constant.BoolVal(k.Value)
+				} else if AssumeFn != nil {
+					a := NormCond(e)
+					kn, av := AssumeFn(a)
+					if !kn {
+						known = false
+						break
+					}
+					bv = av != a.Negated
+				} else {
+					known = false
+					break
+				}
+				if any && bv != val {
+					known = false
+					break
+				}
+				val, any = bv, true
+			}
+			if !known || !any {
+				continue
+			}
+			// cond == phi XOR neg
+			dead := Edge{b, 0}
+			if val != neg {
+				dead = Edge{b, 1}
+			}
+			if !all[dead] {
+				all[dead] = true
+				out[dead] = true
+				changed = true
+			}
+		}
+	}
+	return out
 }
